@@ -237,7 +237,7 @@ func genC15(t *rapid.T) c15Case {
 	nd := rapid.IntRange(1, 4).Draw(t, "nDevices")
 	for i := 0; i < nd; i++ {
 		if rapid.IntRange(0, 5).Draw(t, fmt.Sprintf("dev%dBad", i)) == 0 {
-			c.Devices = append(c.Devices, rapid.OneOf(rapid.Just(""), rapid.Just("a/b=c,d"), rapid.Just("a/b"), rapid.Just("a=b"),
+			c.Devices = append(c.Devices, rapid.OneOf(rapid.Just(""), rapid.Just("a/b=c,d"), rapid.Just("a/b=c,d/e=f"), rapid.Just("a/b=c,d/e=f,g/h=i"), rapid.Just("a/b=c,"), rapid.Just("a/b"), rapid.Just("a=b"),
 				rapid.Map(rapid.SliceOfN(rapid.SampledFrom(c15Chars), 0, 6), func(r []rune) string { return string(r) })).Draw(t, fmt.Sprintf("dev%d", i)))
 		} else {
 			c.Devices = append(c.Devices, genQName.Draw(t, fmt.Sprintf("dev%d", i)))
